@@ -3,14 +3,14 @@ NEXT GenNext
 CONSTANTS
   Unit = 8
   TickMs = 125
-  Family = "fixed5"
-  Bursts = {1, 3}
+  Family = "simfwd"
+  Bursts = {1, 2, 3}
   Rates <- RatesFin
-  SetRates <- NoRates
-  Ns = {0, 2, 4}
-  Dts <- GDtsOdd
-  MaxEvents = 5
-  MaxRes = 3
+  SetRates <- RatesFin
+  Ns = {0, 1, 2, 3, 4}
+  Dts <- GDtsSimFwd
+  MaxEvents = 40
+  MaxRes = 6
   Kinds <- KAll
   Deviation = "none"
 INVARIANT Emit
